@@ -38,7 +38,7 @@ func TestVerifC04Core(t *testing.T) {
 	var caseIdx int64
 	inBubble(t, func() {
 		// ---- cooperative peers at the window edge ----------------------------
-		for q := 0; q < env.pickN(640, 20000); q++ {
+		for q := 0; q < env.pickN(640, 6000); q++ {
 			idx := caseIdx
 			caseIdx++
 			if !env.mine(idx) {
@@ -144,7 +144,7 @@ func TestVerifC04Core(t *testing.T) {
 		}
 
 		// ---- adversarial peer ----------------------------------------------------
-		for q := 0; q < env.pickN(480, 16000); q++ {
+		for q := 0; q < env.pickN(480, 5000); q++ {
 			idx := caseIdx
 			caseIdx++
 			if !env.mine(idx) {
